@@ -117,7 +117,7 @@ func (m *haltMonitor) Classify(info *pbt.CaseInfo) {
 func haltProfile() *Profile {
 	w := AllOpsWeights()
 	return &Profile{Name: "halt", Weights: w, MinBlocks: 8, MaxBlocks: 30, MaxOps: 5, AbsentPM: 150, BadVarPM: 300, Setup: true, ThoroughScale: 3,
-		GapW: []int{3, 4, 10, 25, 4, 3, 3, 3, 4, 3, 3, 1, 2, 1}}
+		GapW: []int{3, 4, 10, 25, 4, 3, 3, 3, 4, 3, 3, 1, 2, 1, 6}}
 }
 
 // runProp is the common shape of all history properties.
